@@ -107,6 +107,8 @@ func projHeader(h *rtp.Header) Ev {
 		"ver": int(h.Version), "pad": h.Padding, "x": h.Extension, "m": h.Marker, "pt": int(h.PayloadType),
 		"seq": int(h.SequenceNumber), "ts": be32(h.Timestamp), "ssrc": be32(h.SSRC), "csrc": csrc,
 		"profile": 0, "exts": []Ev{},
+		// the Extensions slice is an exported field: its length is observable even when X is clear
+		"nexts_raw": len(h.Extensions),
 	}
 	if h.Extension {
 		e["profile"] = int(h.ExtensionProfile)
